@@ -404,7 +404,31 @@ def gen_program(rng, missing_names=None, max_stmts=8, allow_nested_imports=True)
             # newer / rarer statement forms around reads of imported names
             e1, e2 = gen_expr(uenv, rng), gen_expr(uenv, rng)
             k = rng.random()
-            if k < 0.2:
+            mods = [n for n, kd in uenv.items() if kd.startswith("mod:") and MOD_ATTRS.get(kd[4:].partition("+")[0], ([], [], []))[1]]
+            if mods and rng.random() < 0.45:
+                # an imported module read ONLY in a position some visitors forget: match-pattern values, walrus value,
+                # parameter annotation next to a same-named parameter, type-parameter bound, mapping-pattern key
+                m0 = rng.choice(mods)
+                c0 = rng.choice(MOD_ATTRS[uenv[m0][4:].partition("+")[0]][1])
+                kk = rng.random()
+                fname = "fn%d" % len(funcs)
+                if kk < 0.2:
+                    lines.append("def %s(v=%s.%s):\n    match v:\n        case %s.%s as y0:\n            return y0\n        case _:\n            return 0" % (fname, m0, c0, m0, c0))
+                elif kk < 0.35:
+                    lines.append("def %s(v=%s.%s):\n    match {1: v}:\n        case {1: %s.%s | 0 as z0, **rest0}:\n            return z0\n    return -1" % (fname, m0, c0, m0, c0))
+                elif kk < 0.5:
+                    lines.append("def %s():\n    return (t0 := %s.%s)" % (fname, m0, c0))
+                elif kk < 0.65:
+                    lines.append("def %s(%s=1, y0: %s.%s = 2):\n    return (%s, y0)" % (fname, m0, m0, c0, m0))
+                elif kk < 0.8:
+                    lines.append("def %s[T0: %s.%s](a0: T0 = 3) -> T0:\n    return a0" % (fname, m0, c0))
+                elif kk < 0.9:
+                    lines.append("class G%d[T0: %s.%s]:\n    pass\ndef %s():\n    return 1" % (len(lines), m0, c0, fname))
+                else:
+                    lines.append("type Al%d[T0: %s.%s] = list[T0]\ndef %s():\n    return 2" % (len(lines), m0, c0, fname))
+                funcs.append(fname)
+                env[fname] = "localfn"
+            elif k < 0.2:
                 lines.append("match %s:\n    case 1 | 2:\n        print(%s)\n    case [a0, *b0] if a0:\n        print(a0)\n    case _:\n        print(%s)" % (rng.choice(["1", "3", "[1, 2]"]), e1, e2))
             elif k < 0.35:
                 lines.append("if (w0 := %s) is not None:\n    print(w0, %s)" % (e1, e2))
